@@ -9,7 +9,7 @@ parser.rs = real parser::{Term, Variant, SourceVariable, ProductOrQuotient, SumO
 import os
 import re
 
-from weave import LostAnchor, Source, Woven, sections
+from weave import LostAnchor, Source, Woven, sections, guard_bindings
 
 HERE = os.path.dirname(os.path.abspath(__file__))
 VERIF = os.path.dirname(HERE)
@@ -635,6 +635,10 @@ def build_core(repo, external=(), canary=None, with_witness=True, boost=False):
     fv = Woven(term_rs, "fn", "free_variables", log)
     weave_free_variables(fv, sc)
     ev_rs = Source(repo, "src/evaluator.rs")
+    # the callees are bound by name: make sure the compiler binds them to the same functions
+    guard_bindings(db_rs, {"signed_shift": "", "unsigned_shift": "", "open": ""}, own=("signed_shift", "unsigned_shift", "open"))
+    guard_bindings(term_rs, {"unsigned_shift": "de_bruijn", "free_variables": ""}, own=("free_variables",))
+    guard_bindings(ev_rs, {"open": "de_bruijn", "unsigned_shift": "de_bruijn", "is_value": "", "step": "", "evaluate": ""}, own=("is_value", "step", "evaluate"))
     iv = Woven(ev_rs, "fn", "is_value", log)
     weave_is_value(iv, sc)
     st = Woven(ev_rs, "fn", "step", log)
